@@ -43,6 +43,11 @@ template <class T, size_t N, size_t NM> static void run(const std::string& op, c
     a.mpz2poly(arr);
     if (op == "unlift") show(os, a); else showmpz(os, a);
     for (size_t i = 0; i < N; i++) mpz_clear(arr[i]);
+  } else if (op == "unlift_set" || op == "unlift_ctor") {   // the other big-integer entry points: set_mpz / the mpz_class constructors and operator=
+    std::array<mpz_class, N> arr;
+    for (size_t i = 0; i < N; i++) arr[i] = mpz_class(v[i], 10);
+    if (op == "unlift_set") { a.set_mpz(arr); show(os, a); }
+    else { P* q = alloc_aligned<P, 32>(1, arr); show(os, *q); free_aligned(1, q); }
   } else if (op == "lift_unlift") {   // residues -> integers -> residues
     put(a, v, 0);
     std::array<mpz_t, N> arr = a.poly2mpz();
